@@ -349,6 +349,16 @@ def gen_deltas():
         d.on_trials[tid].attach(make_md(k))
       return d
     out.append(('delta', build))
+  # one and the same namespace (and key) on the study and on several trials: the units are adjacent in the transport form
+  for ns, with_study, tids in itertools.product([(), ('a',), ('', 'a')], [True, False], [(1,), (1, 7), (7, 1, 3)]):
+    def build1(ns=ns, with_study=with_study, tids=tids):
+      d = vz.MetadataDelta()
+      if with_study:
+        d.on_study.abs_ns(vz.Namespace(ns))['k'] = 'study'
+      for tid in tids:
+        d.on_trials[tid].abs_ns(vz.Namespace(ns))['k'] = 'trial-%d' % tid
+      return d
+    out.append(('delta-one-namespace', build1))
   return out
 
 
